@@ -1,0 +1,12 @@
+//go:build verif
+
+// Contracts for the deductive verifier in /verif (comment-only: adds no declarations).
+package eventnotifier
+
+//@ use sync logging
+
+// ---- C20: publishing never blocks issuance; the subscriber table is shared state -------------------------------
+// every publish entry point, and whatever it calls inside /repo, is free of blocking channel operations
+//@ nonblocking (*EventNotifier).PublishSSH, (*EventNotifier).PublishX509, (*EventNotifier).PublishAuthEvent, (*EventNotifier).PublishWebLoginEvent, (*EventNotifier).PublishServiceProviderLoginEvent, (*EventNotifier).PublishVIPAuthEvent  #C20.publish-never-blocks @C20
+// the table of subscriber channels is only used under the notifier's mutex (C16's discipline for this package)
+//@ guarded_by EventNotifier.mutex : EventNotifier.transmitChannels  #C16.eventnotifier-mutex @C16,C20
